@@ -1,20 +1,26 @@
 ---------------------------- MODULE MC_LazyIndex ----------------------------
 EXTENDS LazyIndex
 \* ("void" is a directory object that lists nothing - the object every tracked empty directory shares)
-KeysDef == {"foo", "data", "data/bar", "data/sub", "data/sub/baz", "data/sub/deep", "data/sub/deep/qux", "other", "other/x", "void"}
+KeysDef == {"foo", "data", "data/bar", "data/sub", "data/sub/baz", "data/sub/deep", "data/sub/deep/qux", "other", "other/x", "void",
+            \* lazy directories below an explicit directory: one with files at two depths, one that lists nothing
+            "top", "top/in", "top/in/a", "top/in/s", "top/in/s/b", "top/e"}
 ParentDef == [k \in KeysDef |->
-    CASE k \in {"foo", "data", "other", "void"} -> ""
+    CASE k \in {"foo", "data", "other", "void", "top"} -> ""
+      [] k \in {"top/in", "top/e"} -> "top"
+      [] k \in {"top/in/a", "top/in/s"} -> "top/in"
+      [] k = "top/in/s/b" -> "top/in/s"
       [] k \in {"data/bar", "data/sub"} -> "data"
       [] k \in {"data/sub/baz", "data/sub/deep"} -> "data/sub"
       [] k = "data/sub/deep/qux" -> "data/sub/deep"
       [] k = "other/x" -> "other"]
-IsDirDef == [k \in KeysDef |-> k \in {"data", "data/sub", "data/sub/deep", "other", "void"}]
-LazyDef == {"data", "other", "void"}
-FiltersDef == {"all", "foo", "data", "sub", "other"}
+IsDirDef == [k \in KeysDef |-> k \in {"data", "data/sub", "data/sub/deep", "other", "void", "top", "top/in", "top/in/s", "top/e"}]
+LazyDef == {"data", "other", "void", "top/in", "top/e"}
+FiltersDef == {"all", "foo", "data", "sub", "other", "top"}
 FilterKeysDef == [f \in FiltersDef |->
     CASE f = "all" -> KeysDef
       [] f = "foo" -> {"foo"}
       [] f = "data" -> {k \in KeysDef : k = "data" \/ Under(k, "data")}
       [] f = "sub" -> {"data", "data/sub", "data/sub/baz", "data/sub/deep", "data/sub/deep/qux"}
-      [] f = "other" -> {"other", "other/x"}]
+      [] f = "other" -> {"other", "other/x"}
+      [] f = "top" -> {k \in KeysDef : k = "top" \/ Under(k, "top")}]
 =============================================================================
